@@ -69,7 +69,7 @@ def defaultPort : Nat := 6567
 /-! ### well-formedness -/
 
 /-- a string `writeString` can carry and the reader is specified for: valid UTF-8 of at most 255 bytes
-without U+0000 (the reader treats NUL as an in-string terminator; servers do not send it) -/
+without U+0000 (the reader ends the text at a NUL; what it does with one is `C07_mindustry_nul_cut`) -/
 def okStr (s : Bytes) : Bool := s.length < 256 && !s.contains 0 && validUtf8 s
 
 def okInt (i : Int) : Bool := decide (-(2 ^ 31 : Int) ≤ i) && decide (i < 2 ^ 31)
